@@ -522,15 +522,19 @@ def _first_failure(col, prefer_unknown=True):
 
 
 def replay(req):
-    """No proof obligations exist for C02; a replay request runs the file contract on the named (or on every small) table entry."""
+    """Native replay of a refuted proof obligation (contracts/C02.py): the file contract (size, unit sphere, exactness of the grid built five
+    ways) is run on the table entries the replay spec names (`degree` or `degrees`; every entry of the method otherwise)."""
     spec = req.get("spec") or {}
     model = req.get("model") or {}
     method = spec.get("method") or model.get("method")
     degree = spec.get("degree", model.get("degree"))
+    degrees = None if degree is None else {int(degree)}
+    if degrees is None and spec.get("degrees"):
+        degrees = {int(x) for x in spec["degrees"]}
     col = Collector("replay")
     methods = [method] if method in METHODS else list(METHODS)
-    tasks = [t for t in all_tasks("quick", methods) if degree is None or t[1] == int(degree)]
-    if degree is not None:
+    tasks = [t for t in all_tasks("quick", methods) if degrees is None or t[1] in degrees]
+    if degrees is not None:
         tasks = [(m, d, n, d) for m, d, n, _ in tasks]
     for obs in run_tasks(worker, tasks):
         judge_file(col, obs)
